@@ -51,12 +51,23 @@ func oracleC06(v *View, vd *Verdict) {
 					}
 				case refsn.SUBSCRIBE:
 					cl = append(cl, &ex{kind: "client-SUBSCRIBE", id: p.MsgID, start: e.Idx, t: e.T})
+				case refsn.REGACK:
+					for _, x := range br {
+						if x.kind == "gateway-REGISTER" && !x.done && x.id == p.MsgID && e.Idx > x.start {
+							x.done = true
+						}
+					}
 				}
 			case EvG2C:
 				if e.SNErr != nil {
 					break
 				}
 				p := e.SN
+				if p.Type == refsn.REGISTER {
+					// the gateway's own exchange (registration before a broker publish); its id is the broker's
+					// for QoS 1/2 and one of the gateway's choice (0xFFFF downwards) for QoS 0
+					br = append(br, &ex{kind: "gateway-REGISTER", id: p.MsgID, start: e.Idx, t: e.T})
+				}
 				for _, x := range cl {
 					if x.done || x.id != p.MsgID || e.Idx < x.start {
 						continue
@@ -197,8 +208,9 @@ func genC06(g *Gen, idx int) *Plan {
 	sg.add(connectPkt("c1", 60, false, true))
 	sg.gap(1200, 1600)
 	m := uint16(g.Range(1, 40))
-	if g.Bool(0.1) {
-		m = 0xFFFF
+	if g.Bool(0.25) {
+		// the ids the gateway itself picks for the REGISTER that precedes a QoS 0 publish: 0xFFFF downwards
+		m = 0xFFFF - uint16(g.Intn(2))
 	}
 	t0 := sg.t
 	switch g.Intn(3) {
@@ -212,6 +224,13 @@ func genC06(g *Gen, idx int) *Plan {
 	// the broker's exchange with the same id starts inside the client's exchange window
 	at := t0 + g.Range(-100, p.Broker.AnswerDelayMs)
 	p.Broker.Injects = []BrokerInject{{AtMs: at, Session: "p1", Force: true, Topic: []string{"ab", "t/unregistered"}[g.Intn(2)], Payload: []byte("theirs"), QoS: uint8(1 + g.Intn(2)), ID: m}}
+	if m >= 0xFFFE {
+		// QoS 0 on names without an id: each one starts a gateway REGISTER exchange with an id of the gateway's choice
+		p.Broker.Injects = nil
+		for k := 0; k < int(g.Range(1, 2)); k++ {
+			p.Broker.Injects = append(p.Broker.Injects, BrokerInject{AtMs: at + int64(k), Session: "p1", Force: true, Topic: fmt.Sprintf("t/unregistered%d", k), Payload: []byte(fmt.Sprintf("theirs%d", k)), QoS: 0})
+		}
+	}
 	p.Peers = []PeerPlan{{Name: "p1", Ops: sg.ops}}
 	p.Cfg.HorizonMs = sg.t + cfg.RetryDelayMs*int64(cfg.RetryCount+2) + 9000
 	return p
@@ -465,7 +484,7 @@ func oracleNoCrash(prop string) func(v *View, vd *Verdict) {
 }
 
 func garbage(g *Gen) []byte {
-	switch g.Intn(9) {
+	switch g.Intn(12) {
 	case 0:
 		return g.Bytes(0, 2)
 	case 1:
@@ -489,8 +508,65 @@ func garbage(g *Gen) []byte {
 		t := refsn.AllTypes[g.Intn(len(refsn.AllTypes))]
 		body := g.Bytes(0, 10)
 		return append([]byte{byte(g.U64()), t}, body...)
-	default:
+	case 8:
 		return g.Bytes(3, 40)
+	default:
+		// a valid encoding of a well-formed packet, then one structural lie
+		b := validPkt(g).Encode()
+		switch g.Intn(6) {
+		case 0: // announced length smaller than the fixed part / than the datagram
+			if len(b) > 0 && b[0] != 1 {
+				b[0] = byte(g.Intn(9))
+			}
+		case 1: // announced length larger than the datagram
+			if len(b) > 0 && b[0] != 1 {
+				b[0] = byte(len(b) + 1 + g.Intn(20))
+			}
+		case 2: // truncated anywhere
+			b = b[:g.Intn(len(b)+1)]
+		case 3: // trailing octets
+			b = append(b, g.Bytes(1, 6)...)
+		case 4: // same body behind the 3-octet form with a lying length
+			if len(b) >= 2 && b[0] != 1 {
+				b = append([]byte{1, 0, byte(g.Intn(12))}, b[1:]...)
+			}
+		case 5: // another type's body
+			if len(b) >= 2 && b[0] != 1 {
+				b[1] = refsn.AllTypes[g.Intn(len(refsn.AllTypes))]
+			}
+		}
+		return b
+	}
+}
+
+// validPkt: a well-formed packet of a random type with small random fields.
+func validPkt(g *Gen) refsn.Pkt {
+	name := []string{"t/a", "ab", "x", "long/topic/name"}[g.Intn(4)]
+	switch g.Intn(12) {
+	case 0:
+		return refsn.Pkt{Type: refsn.PUBLISH, TIT: uint8(g.Intn(3)), TopicID: uint16(g.Intn(300)), QoS: uint8(g.Intn(4)), MsgID: uint16(g.Intn(70000)), Data: g.Bytes(0, 12)}
+	case 1:
+		return refsn.Pkt{Type: refsn.CONNECT, ProtocolID: 1, Duration: uint16(g.Intn(100)), ClientID: name, Will: g.Bool(0.5), Clean: g.Bool(0.5)}
+	case 2:
+		return refsn.Pkt{Type: refsn.REGISTER, TopicID: uint16(g.Intn(300)), MsgID: uint16(g.Intn(70000)), TopicName: name}
+	case 3:
+		return refsn.Pkt{Type: refsn.SUBSCRIBE, TIT: refsn.TITNormal, MsgID: uint16(g.Intn(70000)), TopicName: name, QoS: uint8(g.Intn(3))}
+	case 4:
+		return refsn.Pkt{Type: refsn.UNSUBSCRIBE, TIT: refsn.TITNormal, MsgID: uint16(g.Intn(70000)), TopicName: name}
+	case 5:
+		return refsn.Pkt{Type: refsn.WILLTOPIC, TopicName: name, QoS: uint8(g.Intn(3)), Will: true}
+	case 6:
+		return refsn.Pkt{Type: refsn.WILLMSG, Data: g.Bytes(0, 12)}
+	case 7:
+		return refsn.Pkt{Type: refsn.AUTH, AuthMethod: "PLAIN", Data: refsn.PlainAuth("u", []byte("p"))}
+	case 8:
+		return refsn.Pkt{Type: refsn.PINGREQ, Data: []byte(name)}
+	case 9:
+		return refsn.Pkt{Type: refsn.DISCONNECT, HasDur: g.Bool(0.5), Duration: uint16(g.Intn(50))}
+	case 10:
+		return refsn.Pkt{Type: []byte{refsn.PUBACK, refsn.REGACK}[g.Intn(2)], TopicID: uint16(g.Intn(300)), MsgID: uint16(g.Intn(70000))}
+	default:
+		return refsn.Pkt{Type: []byte{refsn.PUBREC, refsn.PUBREL, refsn.PUBCOMP, refsn.SUBACK, refsn.UNSUBACK, refsn.CONNACK, refsn.PINGRESP}[g.Intn(7)], MsgID: uint16(g.Intn(70000))}
 	}
 }
 
@@ -524,29 +600,65 @@ func genC20(g *Gen, idx int) *Plan {
 	return p
 }
 
-// enumC20: every datagram of length <= 2 into a fresh session (thorough tier: all 65,793; quick: a spread).
+// c20Grid: header-versus-size grid — every message type x announced length 0..14 x actual body size
+// 0..14 x {1-octet, 3-octet length form} x two body patterns (25,200 datagrams): the length field lies
+// in both directions around every type's fixed part.
+const c20GridN = 28 * 15 * 15 * 2 * 2
+
+func c20Grid(k int) []byte {
+	pat := k % 2
+	k /= 2
+	long := k%2 == 1
+	k /= 2
+	blen := k % 15
+	k /= 15
+	announced := k % 15
+	k /= 15
+	typ := refsn.AllTypes[k%len(refsn.AllTypes)]
+	body := make([]byte, blen)
+	for i := range body {
+		if pat == 1 {
+			body[i] = byte(i + 1)
+		}
+	}
+	if long {
+		return append([]byte{1, 0, byte(announced), typ}, body...)
+	}
+	return append([]byte{byte(announced), typ}, body...)
+}
+
+// enumC20: every datagram of length <= 2 into a fresh session, then the header-versus-size grid
+// (thorough tier: all 65,793 + 25,200; quick: a spread of both).
 func enumC20(tier string, idx int) *Plan {
 	total := 1 + 256 + 65536
-	limit := 2500
+	limit := 1200
 	if tier == "thorough" {
 		limit = total
 	}
-	if idx >= limit {
-		return nil
-	}
-	k := idx
-	if tier != "thorough" {
-		k = int(uint64(idx) * 2654435761 % uint64(total))
-	}
 	var raw []byte
+	k := idx
 	switch {
-	case k == 0:
-		raw = []byte{}
-	case k <= 256:
-		raw = []byte{byte(k - 1)}
+	case idx < limit:
+		if tier != "thorough" {
+			k = int(uint64(idx) * 2654435761 % uint64(total))
+		}
+		switch {
+		case k == 0:
+			raw = []byte{}
+		case k <= 256:
+			raw = []byte{byte(k - 1)}
+		default:
+			k -= 257
+			raw = []byte{byte(k >> 8), byte(k)}
+		}
+	case tier == "thorough" && idx < limit+c20GridN:
+		k = idx - limit
+		raw = c20Grid(k)
+	case tier != "thorough" && idx < limit+1800:
+		k = int(uint64(idx-limit) * 2654435761 % uint64(c20GridN))
+		raw = c20Grid(k)
 	default:
-		k -= 257
-		raw = []byte{byte(k >> 8), byte(k)}
+		return nil
 	}
 	g := &Gen{Rng: newRng(uint64(idx) + 5), Tier: tier}
 	cfg := g.BaseCfg()
@@ -661,8 +773,8 @@ func init() {
 		Post: func(t *testing.T, r *Result, vd *Verdict) { diffC15(t, r, vd) },
 		Assumptions: []string{"one session per peer address is pion/udp's job (stubbed by the simulated listener)"}})
 	Register(&Check{ID: "C20", Level: "exploration",
-		Rule:   "fault-injection reading only: corrupted/truncated/garbage datagrams are injected into live gateway sessions (7 session states) and into the client library's receive loop; every datagram of length <= 2 is injected into a fresh session (quick: a 2,500-datagram spread of the 65,793; thorough: all), then structured garbage (3-octet length forms, AUTH method lengths 250-255, lying length fields, random bodies); oracle: the worker process does not crash; non-trivial = every run",
-		Enum:   enumC20, Gen: genC20, Oracle: oracleNoCrash("C20"), Quick: 3500, Thorough: 90000})
+		Rule:   "fault-injection reading only: corrupted/truncated/garbage datagrams are injected into live gateway sessions (7 session states) and into the client library's receive loop; every datagram of length <= 2 is injected into a fresh session, then a header-versus-size grid (every type x announced length 0-14 x body size 0-14 x both length forms x two patterns, 25,200 datagrams) (quick: a 3,000-datagram spread; thorough: all 90,993), then structured garbage (3-octet length forms, AUTH method lengths 250-255, lying length fields, random bodies, valid encodings of every packet kind with one structural lie: announced length too small/too large, truncation, trailing octets, 3-octet form, foreign type); oracle: the worker process does not crash; non-trivial = every run",
+		Enum:   enumC20, Gen: genC20, Oracle: oracleNoCrash("C20"), Quick: 4500, Thorough: 130000})
 	Register(&Check{ID: "C25", Level: "exploration",
 		Rule:   "stateful fuzzing in three directions with valid encodings: raw peer -> gateway (every packet type in any state, ids colliding with broker-initiated transactions), adversarial broker -> gateway (SUBACK without/with several codes, QoS 3, CONNACK mid-session, unknown ids, reserved type, malformed length, huge topic/payload), scripted gateway -> client library (every packet type with random fields); all yield sites eligible; oracle: no worker crash; non-trivial = every run",
 		Gen:    genC25, Oracle: oracleNoCrash("C25"), Quick: 1500, Thorough: 120000})
